@@ -1,4 +1,5 @@
 import HapModel.Drv.C01
+import HapModel.Drv.C12
 import HapModel.Drv.C13
 import HapModel.Drv.C14
 import HapModel.Drv.C18
@@ -13,6 +14,7 @@ def dispatch1 (op : String) (j : Json) : R Json :=
   | "getSegment" => hGetSegment j
   | "simGen" => hSimGen j
   | "qc" => hQC j
+  | "objRun" => hObjRun j
   | _ => throw s!"unknown op {op}"
 
 /-- {"op":"batch","reqs":[…]} → {"resps":[…]} -/
